@@ -1,6 +1,152 @@
 package main
 
-// RunBounded runs a labelled bounded stand-in (filled in later).
+import (
+	"context"
+	"encoding/json"
+	"fmt"
+	"os"
+	"os/exec"
+	"path/filepath"
+	"regexp"
+	"strconv"
+	"strings"
+	"time"
+)
+
+// Bounded stand-ins. Where no contract within the generator's reach can carry a part of a property,
+// a bounded run of the REAL code stands in. Each runner is a Go test file under /verif/bounded that
+// is injected into the package with `go test -overlay` (nothing is written into /repo). It states its
+// bound, is labelled "bounded stand-in" in the evidence and is never counted among the discharged
+// obligations.
+
+type boundedSpec struct {
+	File    string // test file under /verif/bounded
+	PkgDir  string // package directory in the repository
+	Test    string // test function
+	Quick   map[string]string
+	Thorough map[string]string
+}
+
+var boundedRunners = map[string]boundedSpec{
+	"c08_history": {File: "c08_history_test.go", PkgDir: "store", Test: "TestVerifBoundedC08",
+		Quick: map[string]string{"VERIF_BOUND_HISTORIES": "25"}, Thorough: map[string]string{"VERIF_BOUND_HISTORIES": "400"}},
+	"c16_proofs": {File: "c16_proofs_test.go", PkgDir: "store", Test: "TestVerifBoundedC16",
+		Quick: map[string]string{"VERIF_BOUND_TREES": "6"}, Thorough: map[string]string{"VERIF_BOUND_TREES": "60"}},
+}
+
+var summaryRe = regexp.MustCompile(`BOUNDED-SUMMARY name=(\S+) evaluations=(\d+) distinct_nontrivial=(\d+) violations=(\d+) bound=(\S+)`)
+
+// RunBounded runs a labelled bounded stand-in against the repository.
 func RunBounded(g *Gen, vdir, name, tier string, seed int) BoundedResult {
-	return BoundedResult{Name: name}
+	res := BoundedResult{Name: name}
+	sp, ok := boundedRunners[name]
+	if !ok {
+		res.Violations = append(res.Violations, "unknown bounded runner "+name)
+		return res
+	}
+	src, err := os.ReadFile(filepath.Join(vdir, "bounded", sp.File))
+	if err != nil {
+		res.Violations = append(res.Violations, err.Error())
+		return res
+	}
+	work, _ := os.MkdirTemp("", "govc-bounded")
+	defer os.RemoveAll(work)
+	tf := filepath.Join(work, "zz_govc_bounded_test.go")
+	os.WriteFile(tf, src, 0o644)
+	pkgDir := filepath.Join(g.repo, sp.PkgDir)
+	ov, _ := json.Marshal(map[string]any{"Replace": map[string]string{filepath.Join(pkgDir, "zz_govc_bounded_test.go"): tf}})
+	ovf := filepath.Join(work, "overlay.json")
+	os.WriteFile(ovf, ov, 0o644)
+	timeout := 240 * time.Second
+	if tier == "thorough" {
+		timeout = 40 * time.Minute
+	}
+	ctx, cancel := context.WithTimeout(context.Background(), timeout)
+	defer cancel()
+	cmd := exec.CommandContext(ctx, "go", "test", "-overlay", ovf, "-vet=off", "-count=1", "-timeout", fmt.Sprintf("%ds", int(timeout.Seconds())-5), "-run", "^"+sp.Test+"$", "-v", ".")
+	cmd.Dir = pkgDir
+	env := []string{}
+	for _, e := range os.Environ() {
+		if strings.HasPrefix(e, "GOFLAGS=") || strings.HasPrefix(e, "GOTOOLCHAIN=") || strings.HasPrefix(e, "GOSUMDB=") || strings.HasPrefix(e, "PATH=") || strings.HasPrefix(e, "VERIF_SEED=") {
+			continue
+		}
+		env = append(env, e)
+	}
+	path := strings.ReplaceAll(os.Getenv("PATH"), "/opt/veriftools/go1.26.8/bin:", "")
+	env = append(env, "GOFLAGS=-mod=mod", "PATH="+path, "VERIF_SEED="+strconv.Itoa(seed))
+	params := sp.Quick
+	if tier == "thorough" {
+		params = sp.Thorough
+	}
+	for k, v := range params {
+		env = append(env, k+"="+v)
+	}
+	cmd.Env = env
+	outb, runErr := cmd.CombinedOutput()
+	out := string(outb)
+	known, _ := loadKnownFindings(vdir)
+	var violLines, histLines []string
+	for _, l := range strings.Split(out, "\n") {
+		switch {
+		case strings.HasPrefix(l, "BOUNDED-VIOLATION"):
+			violLines = append(violLines, l)
+		case strings.HasPrefix(l, "BOUNDED-HISTORY"), strings.HasPrefix(l, "BOUNDED-WITNESS"):
+			histLines = append(histLines, l)
+		case strings.HasPrefix(l, "BOUNDED-SAMPLE"):
+			if len(res.Samples) < 4 {
+				res.Samples = append(res.Samples, strings.TrimPrefix(l, "BOUNDED-SAMPLE "))
+			}
+		}
+		if m := summaryRe.FindStringSubmatch(l); m != nil {
+			res.Evaluations, _ = strconv.Atoi(m[2])
+			res.Distinct, _ = strconv.Atoi(m[3])
+			res.Bound = m[5]
+		}
+	}
+	if res.Evaluations == 0 {
+		// the runner did not complete: that is a broken check, reported as such
+		dir := filepath.Join(outDir(vdir), "replays", strings.ToUpper(name[:3]))
+		os.MkdirAll(dir, 0o755)
+		p := filepath.Join(dir, name+".run-failure.txt")
+		os.WriteFile(p, []byte(fmt.Sprintf("bounded runner %s did not complete (%v)\n\n%s", name, runErr, firstLines(out, 60))), 0o644)
+		res.Violations = append(res.Violations, p+" obligation=bounded."+name+" no-failing-input-found")
+		return res
+	}
+	if len(res.Samples) == 0 {
+		res.Samples = append(res.Samples, fmt.Sprintf("%s: %d evaluations within bound %s", name, res.Evaluations, res.Bound))
+	}
+	// violations: each gets a replay file with its witness; known findings are matched by their kind tag
+	dir := filepath.Join(outDir(vdir), "replays", strings.ToUpper(name[:3]))
+	for i, vl := range violLines {
+		kind := "bounded." + name
+		if j := strings.Index(vl, "kind="); j >= 0 {
+			kind = "bounded." + name + "." + strings.Fields(vl[j+5:])[0]
+		}
+		pid := strings.ToUpper(name[:3])
+		if kf := matchKnown(known, pid, kind); kf != nil {
+			entry := kf.What + " [" + kind + "]"
+			dup := false
+			for _, k := range res.Known {
+				if k == entry {
+					dup = true
+				}
+			}
+			if !dup {
+				res.Known = append(res.Known, entry)
+			}
+			res.KnownIDs = append(res.KnownIDs, kf.Obligation)
+			continue
+		}
+		os.MkdirAll(dir, 0o755)
+		p := filepath.Join(dir, fmt.Sprintf("%s.violation%d.txt", name, i+1))
+		var sb strings.Builder
+		fmt.Fprintf(&sb, "bounded stand-in: %s\nbound: %s\nre-run: (cd %s && VERIF_SEED=%d go test -overlay <ov> -run ^%s$ .) with /verif/bounded/%s injected as a test file\n\n%s\n\n", name, res.Bound, pkgDir, seed, sp.Test, sp.File, vl)
+		for _, h := range histLines {
+			sb.WriteString(h + "\n")
+		}
+		os.WriteFile(p, []byte(sb.String()), 0o644)
+		res.Violations = append(res.Violations, p+" obligation="+kind)
+	}
+	res.Exhaustive = strings.Contains(res.Bound, "exhaustive")
+	return res
 }
